@@ -23,14 +23,15 @@ from checks import c01
 PROP = 'C04'
 LEVEL = 'exploration'
 RULE = ('random universes; dense valid requests; mutations: xsi:type retag of every element with every published class and xs builtins '
-        '(validators None, soft, lxml), kind swaps scalar/map/list/null at every position of JSON, YAML and MessagePack requests and '
+        '(validators None, soft, lxml), the same retagging on the declared SOAP request header and its descendants (what user code reads as '
+        'ctx.in_header; Soap11/Soap12, validators None, soft, lxml), kind swaps scalar/map/list/null at every position of JSON, YAML and MessagePack requests and '
         'wrapper-key renames (validator soft); non-trivial = a mutated request that was processed and classified; distinct by '
         '(protocol, validator, mutation kind, declared slot shape, substituted kind, outcome).')
 ASSUMPTIONS = [
     'native types: int for the integer family, Decimal, float, bool, str, datetime/date/time/timedelta, UUID, list/tuple of bytes for ByteArray, str member name for Enum',
     'an exception escaping the pipeline is also a C10 matter; it is a C04 violation here because the request was not answered with a validation fault',
 ]
-REQUIRED_COUNTERS = ('mutations_sent', 'type_trees_walked', 'rejections_classified')
+REQUIRED_COUNTERS = ('mutations_sent', 'type_trees_walked', 'rejections_classified', 'headers_walked')
 SHARD_TIMEOUT = {'quick': 900, 'thorough': 3000}
 OK_FAULTS = ('Client.ValidationError', 'Client.SchemaValidationError')
 
@@ -209,6 +210,107 @@ def xml_mutations(R, ir, kind, validator, rng, tier, repro):
                         R.sample({'kind': kind, 'validator': validator, 'xsi_type': str(target), 'at': path, 'fault': fault})
 
 
+# ---------------------------------------------------------------- SOAP headers: xsi:type retagging
+
+def universe_h(seed, uid):
+    rng = core.rng_for(seed, PROP, 'unih%d' % uid)
+    o = gen.Opts(max_types=4, nested_arrays=0.0, styles=('wrapped',), multi_return=False, methods=(2, 3), services=(1, 1), attrs=False, headers=True)
+    ir = gen.rand_universe(rng, o, uid=uid)
+    hc = [t['name'] for t in ir['types'] if not t.get('has_xmldata') and t['fields']]
+    for md in ir['services'][0]['methods']:
+        md.pop('throws', None)
+        md.pop('out_header', None)
+        if hc and not md.get('in_header'):
+            md['in_header'] = rng.choice(hc)
+    ir.pop('faults', None)
+    return ir
+
+
+def header_mutations(R, ir, kind, validator, rng, tier, repro):
+    """the declared SOAP request header is what user code reads as ctx.in_header: retag it and its descendants"""
+    try:
+        C = c01.Ctx(ir, kind, validator, rng)
+    except Exception as e:
+        R.skip('universe rejected at construction: %s' % type(e).__name__)
+        return
+    B, W = C.B, C.W
+    S = W.schema
+    cands = sorted(S.types)
+    rng.shuffle(cands)
+    cands = cands[:8 if tier == 'quick' else 40]
+    builtins = ['string', 'int', 'anyType', 'date']
+    tds = {t['name']: t for t in ir['types']}
+    for md in ir['services'][0]['methods']:
+        hname = md.get('in_header')
+        if not hname:
+            continue
+        args = [refval.dense_value(rng, ir, t) for _, t in md['args']]
+        hval = refval.dense_value(rng, ir, {'ref': hname})
+        if any(a is None for a in args) or hval is None:
+            continue
+        heq = refxml.Q(tds[hname]['ns'], hname)
+        if heq not in S.elements:
+            R.skip('header class has no global element in the published schema')
+            continue
+        try:
+            body = W.request_element(md, args)
+            hroot = etree.Element(heq, nsmap=W.nsmap)
+            W.codec.fill(hroot, S.elements[heq][0], {'ref': hname}, hval)
+        except (refxml.NotConformant, refxml.SchemaMismatch):
+            continue
+        ver = 11 if kind == 'soap11' else 12
+
+        def send(hdoc, mutation, target, path):
+            data = W.serialize(W.envelope(copy.deepcopy(body), ver, [hdoc]))
+            if mutation == 'xsi_type_builtin':
+                data = data.replace(b'xmlns:xsi=', b'xmlns:xs="http://www.w3.org/2001/XMLSchema" xmlns:xsi=', 1)
+            R.evaluations += 1
+            B.calls[:] = []
+            B.returns.clear()
+            r = drive.drive_server(C.server, data)
+            fault = r.error.faultcode if r.error is not None else None
+            if fault and ':' in fault:
+                fault = fault.split(':', 1)[1]
+            case = dict(repro, family=kind, validator=validator, mutation='header_' + mutation, target=str(target), at=path, header=True,
+                        request_b64=base64.b64encode(data[:5000]).decode())
+            out = classify_outcome(R, B, md, r.exc, r.exc_stage, fault, case, 'header %s=%s on %s' % (mutation, target, path))
+            if out == 'entered_typed':
+                hdr = getattr(B.calls[0][2], 'in_header', None)
+                probs = []
+                R.count('headers_walked')
+                for h in (hdr if isinstance(hdr, (list, tuple)) else [hdr]):
+                    typecheck(B, {'ref': hname}, h, 'in_header', probs)
+                if probs:
+                    R.violation('header %s=%s on %s: user code received %s' % (mutation, target, path, '; '.join('%s: %s' % p for p in probs[:3])), case,
+                                mech='untyped_header_delivered:%s:%s' % (kind, mutation))
+                    return
+            if out in ('entered_typed', 'rejected'):
+                R.nontrivial(kind, validator, 'header', mutation, out, len(path.split('/')))
+                R.cell('%s|%s|header|%s' % (kind, validator, out))
+        send(copy.deepcopy(hroot), 'valid', '-', '.')
+        elements = [e for e in hroot.iter() if isinstance(e.tag, str)]
+        rng.shuffle(elements)
+        elements = [hroot] + [e for e in elements if e is not hroot]
+        for el in elements[:4 if tier == 'quick' else 30]:
+            path = hroot.getroottree().getelementpath(el)
+            subs = [('class', tq) for tq in cands] + [('builtin', q) for q in builtins]
+            rng.shuffle(subs)
+            for skind, target in subs[:6 if tier == 'quick' else 40]:
+                doc = copy.deepcopy(hroot)
+                e2 = doc if el is hroot else doc.find(path)
+                if e2 is None:
+                    continue
+                if skind == 'class':
+                    ns, _, local = target[1:].partition('}')
+                    pfx = [p_ for p_, u in doc.nsmap.items() if u == ns and p_]
+                    if not pfx:
+                        continue
+                    e2.set('{%s}type' % refxml.XSI, '%s:%s' % (pfx[0], local))
+                else:
+                    e2.set('{%s}type' % refxml.XSI, 'xs:%s' % target)
+                send(doc, 'xsi_type_' + skind, target, path)
+
+
 # ---------------------------------------------------------------- dict documents: kind swaps and wrapper renames
 
 SUBST = [('null', None), ('int', 5), ('str', 'text'), ('bool', True), ('float', 1.5), ('empty_map', {}), ('map', {'x': 1}), ('empty_list', []),
@@ -325,6 +427,12 @@ def run_universe(R, seed, uid, tier):
         xml_confs = rng.sample(xml_confs, 3)
     for kind, validator in xml_confs:
         xml_mutations(R, ir, kind, validator, rng, tier, repro)
+    irh = universe_h(seed, uid)
+    hconfs = [(k, v) for k in ('soap11', 'soap12') for v in (None, 'soft', 'lxml')]
+    if tier == 'quick':
+        hconfs = [('soap11', 'lxml'), rng.choice(hconfs)]
+    for kind, validator in hconfs:
+        header_mutations(R, irh, kind, validator, rng, tier, dict(repro, headers=True))
     dconfs = [(f, w) for f in ('json', 'yaml', 'msgpack') for w in (False, True)]
     if tier == 'quick':
         dconfs = rng.sample(dconfs, 2)
